@@ -28,6 +28,21 @@ let parse_input (s : string) : input = match words s with
       CatchUp (canon, nn latest, nn fin1, nn chunk, fail, nn fin2)
   | _ -> failwith ("input: " ^ s)
 
+(* adapter lines:  G sev ; sev ; ...   sev = L l1 l2 id removed(0|1) | E | P <input>
+   reply: per sev what the forwarding model hands to the client ("-" = nothing), joined by ";" *)
+let show_ev (e : upd) = Printf.sprintf "%s %s %s" (sn e.u_l1) (sn e.u_l2) (sn e.u_id)
+let show_input (i : input) : string = match i with
+  | Upd e -> "U " ^ show_ev e
+  | Rem e -> "R " ^ show_ev e
+  | Tick f -> "T " ^ sn f
+  | SubErr -> "S"
+  | CatchUp _ -> "C"
+let parse_sev (s : string) : sev = match words s with
+  | ["L"; a; b; c; r] -> SLog { g_l1 = nn a; g_l2 = nn b; g_id = nn c; g_removed = (r = "1") }
+  | ["E"] -> SErr
+  | "P" :: rest -> SPoll (parse_input (String.concat " " rest))
+  | _ -> failwith ("sev: " ^ s)
+
 let show_obs = function None -> "-" | Some (a, b) -> sn a ^ ":" ^ sn b
 let show_buf (b : (n * upd) list) : string =
   if b = [] then "-" else
@@ -37,6 +52,14 @@ let okbad b = if b then "ok" else "bad"
 
 let () =
   read_lines (fun line ->
+    if String.length line > 1 && line.[0] = 'G' && line.[1] = ' ' then begin
+      let sevs = List.map parse_sev (split_on ';' (String.sub line 2 (String.length line - 2))) in
+      let out = List.map (fun sv ->
+        match sys_trace fw_real [sv] with
+        | [] -> "-"
+        | l -> String.concat "," (List.map show_input l)) sevs in
+      print_endline (String.concat ";" out); flush stdout
+    end else
     match String.split_on_char '|' line with
     | [h0s; rest] ->
         let h0 = parse_h0 (String.trim h0s) in
